@@ -1,7 +1,12 @@
-// The binding surface: every private name of OP2Utility the harness touches (compiled with
+// The binding surface: every private name of OP2Utility the stream/archive harnesses touch (compiled with
 // -fno-access-control). Used for state keys (deduplication) only, except where a check says otherwise.
-// A refactoring that renames one of these stops the build of the affected check here - a loud harness
-// failure, never a silent pass.
+//
+// Each access goes through a compile-time detection: if a refactoring renames or removes the private member, the
+// harness still builds and falls back to a key made of public observations (Position(), Length(), content read through
+// the public API). The fallback key is coarser - states that differ only in hidden flags are merged, which can only
+// lose exploration, never raise an alarm - and the evidence records it (counter `binding/fallback-keys`).
+// HuffLZ / BitStreamReader / AdaptiveHuffmanTree private state (C04, C15) has no public equivalent: renaming those
+// members stops the build of C04/C15 with HARNESS-BUILD-FAILURE (exit 2), a loud harness failure, never a silent pass.
 #pragma once
 #include "Stream/MemoryReader.h"
 #include "Stream/FileReader.h"
@@ -9,23 +14,108 @@
 #include "Stream/MemoryWriter.h"
 #include "Stream/DynamicMemoryWriter.h"
 #include <string>
+#include <type_traits>
+#include <utility>
 
 namespace peek {
 using namespace OP2Utility;
 
-inline std::string key(Stream::MemoryReader& r) { return "m" + std::to_string(r.position); }
-inline std::string key(Stream::FileReader& r)
+#define PEEK_DETECT(TRAIT, MEMBER) \
+	template <class T, class = void> struct TRAIT : std::false_type {}; \
+	template <class T> struct TRAIT<T, std::void_t<decltype(std::declval<T&>().MEMBER)>> : std::true_type {};
+
+PEEK_DETECT(has_position, position)
+PEEK_DETECT(has_file, file)
+PEEK_DETECT(has_wrappedStream, wrappedStream)
+PEEK_DETECT(has_startingOffset, startingOffset)
+PEEK_DETECT(has_sliceLength, sliceLength)
+PEEK_DETECT(has_offset, offset)
+PEEK_DETECT(has_streamBuffer, streamBuffer)
+PEEK_DETECT(has_archiveFileReader, archiveFileReader)
+PEEK_DETECT(has_clmFileReader, clmFileReader)
+
+inline bool& usedFallback() { static bool f = false; return f; }
+
+// public observation of a reader's cursor; never throws
+template <class R>
+inline std::string publicKey(R& r)
 {
-	auto st = r.file.rdstate();
-	long long tg = -2;
-	if (!r.file.fail()) tg = (long long)r.file.tellg();
-	return "f" + std::to_string(tg) + "/" + std::to_string(int(st));
+	usedFallback() = true;
+	try { return "p" + std::to_string(r.Position()) + "/" + std::to_string(r.Length()); }
+	catch (...) { return "p!"; }
 }
+
+template <class R>
+inline std::string memoryReaderKey(R& r)
+{
+	if constexpr (has_position<R>::value) return "m" + std::to_string(r.position);
+	else return publicKey(r);
+}
+inline std::string key(Stream::MemoryReader& r) { return memoryReaderKey(r); }
+
+template <class R>
+inline std::string fileReaderKey(R& r)
+{
+	if constexpr (has_file<R>::value) {
+		auto st = r.file.rdstate();
+		long long tg = -2;
+		if (!r.file.fail()) tg = (long long)r.file.tellg();
+		return "f" + std::to_string(tg) + "/" + std::to_string(int(st));
+	}
+	else return publicKey(r);
+}
+inline std::string key(Stream::FileReader& r) { return fileReaderKey(r); }
+
 template <class W>
 inline std::string key(Stream::SliceReader<W>& r)
 {
-	return "s[" + std::to_string(r.startingOffset) + "+" + std::to_string(r.sliceLength) + "]" + key(r.wrappedStream);
+	typedef Stream::SliceReader<W> S;
+	if constexpr (has_wrappedStream<S>::value && has_startingOffset<S>::value && has_sliceLength<S>::value)
+		return "s[" + std::to_string(r.startingOffset) + "+" + std::to_string(r.sliceLength) + "]" + key(r.wrappedStream);
+	else return publicKey(r);
 }
-inline std::string key(Stream::MemoryWriter& w) { return "w" + std::to_string(w.offset); }
-inline std::string key(Stream::DynamicMemoryWriter& w) { return "d" + std::to_string(w.streamBuffer.size()) + ":" + std::string(w.streamBuffer.begin(), w.streamBuffer.end()); }
+
+template <class Wr>
+inline std::string memoryWriterKey(Wr& w)
+{
+	if constexpr (has_offset<Wr>::value) return "w" + std::to_string(w.offset);
+	else { usedFallback() = true; return "w" + std::to_string(w.Position()); }
+}
+inline std::string key(Stream::MemoryWriter& w) { return memoryWriterKey(w); }
+
+// exact copy of the private cursor of a fixed writer (clone support); falls back to the public Seek
+template <class Wr>
+inline void copyCursor(Wr& to, Wr& from)
+{
+	if constexpr (has_offset<Wr>::value) to.offset = from.offset;
+	else { usedFallback() = true; to.Seek(from.Position()); }
+}
+
+template <class Wr>
+inline std::string dynamicWriterKey(Wr& w)
+{
+	if constexpr (has_streamBuffer<Wr>::value) return "d" + std::to_string(w.streamBuffer.size()) + ":" + std::string(w.streamBuffer.begin(), w.streamBuffer.end());
+	else {
+		usedFallback() = true;
+		auto r = w.GetReader();
+		std::string s(std::size_t(r.Length()), '\0');
+		if (!s.empty()) r.Read(&s[0], s.size());
+		return "d" + std::to_string(s.size()) + ":" + s;
+	}
+}
+inline std::string key(Stream::DynamicMemoryWriter& w) { return dynamicWriterKey(w); }
+
+// the shared file reader of an archive object; "" if it cannot be reached (then the call-sequence search uses histories)
+template <class V>
+inline std::string volReaderKey(V& v, bool& available)
+{
+	if constexpr (has_archiveFileReader<V>::value) { available = true; return key(v.archiveFileReader); }
+	else { available = false; usedFallback() = true; return ""; }
+}
+template <class C>
+inline std::string clmReaderKey(C& c, bool& available)
+{
+	if constexpr (has_clmFileReader<C>::value) { available = true; return key(c.clmFileReader); }
+	else { available = false; usedFallback() = true; return ""; }
+}
 }
